@@ -23,7 +23,7 @@ use crate::db::types::{
     AddressED, BlockResponseED, BytecodeED, LogED, TraceED, TxED, TxReceiptED, B256ED, U256ED,
 };
 use crate::engine::{get_evm_address_from_pkscript, BRC20ProgEngine, TxInfo};
-use crate::global::{CONFIG, GAS_PER_BYTE, INVALID_ADDRESS};
+use crate::global::{CONFIG, GAS_PER_BYTE, INVALID_ADDRESS, MAX_BLOCK_SIZE};
 use crate::server::auth::{HttpNonBlockingAuth, RpcAuthMiddleware};
 use crate::server::error::{
     wrap_rpc_error, wrap_rpc_error_string, wrap_rpc_error_string_with_data,
@@ -33,6 +33,17 @@ use crate::Brc20ProgConfig;
 
 struct RpcServer {
     engine: BRC20ProgEngine,
+}
+
+/// An inscription cannot be larger than a block: a longer reported length would hand the EVM a gas
+/// allowance (12000 per byte, up to u64::MAX) under which a loop practically never ends
+fn validate_inscription_byte_len(inscription_byte_len: u64) -> RpcResult<()> {
+    if inscription_byte_len > MAX_BLOCK_SIZE {
+        return Err(wrap_rpc_error_string(
+            "inscription_byte_len exceeds the maximum block size",
+        ));
+    }
+    Ok(())
 }
 
 impl RpcServer {
@@ -241,6 +252,7 @@ impl Brc20ProgApiServer for RpcServer {
         op_return_tx_id: B256ED,
     ) -> RpcResult<TxReceiptED> {
         log_call();
+        validate_inscription_byte_len(inscription_byte_len)?;
 
         let block_height = self
             .engine
@@ -289,6 +301,7 @@ impl Brc20ProgApiServer for RpcServer {
         op_return_tx_id: B256ED,
     ) -> RpcResult<Option<TxReceiptED>> {
         log_call();
+        validate_inscription_byte_len(inscription_byte_len)?;
 
         let block_height = self
             .engine
@@ -344,6 +357,7 @@ impl Brc20ProgApiServer for RpcServer {
         op_return_tx_id: B256ED,
     ) -> RpcResult<Vec<TxReceiptED>> {
         log_call();
+        validate_inscription_byte_len(inscription_byte_len)?;
 
         let block_height = self
             .engine
